@@ -34,7 +34,7 @@ OPS = ["action", "norm", "average_pool", "get_component", "to_images"]
 
 
 def cases(tier, seed):
-    n_img, n_mod = (150, 14) if tier == "quick" else (2500, 200)
+    n_img, n_mod = (150, 14) if tier == "quick" else (5000, 300)
     out = [{"kind": "image", "op": OPS[i % len(OPS)]} for i in range(n_img)]
     out += [{"kind": "model", "equivariant": bool(i % 2)} for i in range(n_mod)]
     return out
